@@ -70,6 +70,7 @@ fn rerun(w: &Value) -> Option<Outcome> {
         "c20_u8_table" => Some(c20::run_u8_table(w["input"]["kind"].as_str()?, w["input"]["n"].as_u64()? as usize)),
         "c11_numflag" => Some(c11::run_numflag(w["input"]["key"].as_str()?, w["input"]["n"].as_u64()?)),
         "known" => known::run(w["input"]["case"].as_str()?),
+        "c09_lexeme" => Some(c09::run_lexeme(w["input"]["tok_id"].as_u64()? as u32, w["input"]["start"].as_u64()? as usize, w["input"]["len"].as_u64()? as usize, w["input"]["faulty"].as_bool()?)),
         "c09_anchor" => Some(c09::run_anchor(w["input"]["text"].as_str()?)),
         "c20_numbering" => Some(c20::run_numbering(w["input"]["grammar"].as_str()?)),
         "c20_u8" => Some(c20::run_u8(w["input"]["kind"].as_str()?, w["input"]["n"].as_u64()? as usize)),
@@ -114,6 +115,7 @@ fn search(unit: &str, tag: &str, tier: &str) -> Option<Value> {
         "c19_diag" => c19::search("C19.diag.pinned", tier),
         "c19_queries" | "c19_cols" | "c19_wrap" | "c19_feed" => c19::search(tag, tier),
         "c09_ids" => c09::search(tier),
+        "c09_lexeme" => c09::search_lexeme(),
         "c02_weakly" | "c02_merge" => c02::search(tag, tier),
         "c04_pager" | "c02_itemset" | "c02_add" => if tag.starts_with("C15") { c15::search(tag, tier) } else if tag.starts_with("C16") { c16::search(tag, tier).or_else(|| c04::search(tag, tier)) } else { c04::search(tag, tier).or_else(|| c02::search(tag, tier)) },
         "c16_gc" | "c20_states" if tag.starts_with("C16") => c16::search(tag, tier),
